@@ -232,15 +232,25 @@ def sanitize_filler(filler: bytes, *needles):
 # kernel chunking of paths and strings
 # ---------------------------------------------------------------------------------------------
 
-def lookup_chunks(vnode_id, path: bytes):
-    """kdebug_lookup_gen_events: first record = vnode id + 24 path bytes (START); then 32-byte records; END on
-    the last; START|END when the path fits in 24 bytes.  Returns [(qualifier, 32 data bytes)]."""
-    first = path[:24]
-    rest = path[24:]
-    datas = [u(vnode_id, 8) + first + b'\x00' * (24 - len(first))]
+def _words(text: bytes, n_words: int, word: int):
+    """`text` laid into n_words 64-bit argument words, `word` text bytes per word (8: an LP64 kernel copies the text
+    through `long` / `uintptr_t` words of 8 bytes; 4: an ILP32 kernel with 64-bit records - arm64_32 - copies 4 text
+    bytes per word and the upper half of every argument word is zero), zero padded."""
+    out = b''
+    for i in range(n_words):
+        part = text[i * word:(i + 1) * word]
+        out += part + b'\x00' * (8 - len(part))
+    return out
+
+
+def _chunked(head: bytes, text: bytes, word: int, none_in_between=True):
+    head_words = len(head) // 8
+    first_n = (4 - head_words) * word
+    datas = [head + _words(text[:first_n], 4 - head_words, word)]
+    rest = text[first_n:]
     while rest:
-        part, rest = rest[:32], rest[32:]
-        datas.append(part + b'\x00' * (32 - len(part)))
+        part, rest = rest[:4 * word], rest[4 * word:]
+        datas.append(_words(part, 4, word))
     out = []
     for i, d in enumerate(datas):
         q = 0
@@ -252,44 +262,22 @@ def lookup_chunks(vnode_id, path: bytes):
     return out
 
 
-def global_string_chunks(debugid, str_id, text: bytes):
+def lookup_chunks(vnode_id, path: bytes, word=8):
+    """kdebug_lookup_gen_events: first record = vnode id + 24 path bytes (START); then 32-byte records; END on
+    the last; START|END when the path fits in 24 bytes.  Returns [(qualifier, 32 data bytes)].  (word=4: 12 and 16 text
+    bytes per record, see _words.)"""
+    return _chunked(u(vnode_id, 8), path, word)
+
+
+def global_string_chunks(debugid, str_id, text: bytes, word=8):
     """kernel_debug_string_internal: first record = debugid, str_id, 16 bytes (START); then 32-byte records
     (NONE); END on the last; START|END when it fits."""
-    first = text[:16]
-    rest = text[16:]
-    datas = [u(debugid, 8) + u(str_id, 8) + first + b'\x00' * (16 - len(first))]
-    while rest:
-        part, rest = rest[:32], rest[32:]
-        datas.append(part + b'\x00' * (32 - len(part)))
-    out = []
-    for i, d in enumerate(datas):
-        q = 0
-        if i == 0:
-            q |= QUAL_START
-        if i == len(datas) - 1:
-            q |= QUAL_END
-        out.append((q, d))
-    return out
+    return _chunked(u(debugid, 8) + u(str_id, 8), text, word)
 
 
-def simple_string_chunks(text: bytes):
+def simple_string_chunks(text: bytes, word=8):
     """kernel_debug_string_simple (thread names): 32 bytes per record, START on the first, END on the last."""
-    datas = []
-    rest = text
-    while True:
-        part, rest = rest[:32], rest[32:]
-        datas.append(part + b'\x00' * (32 - len(part)))
-        if not rest:
-            break
-    out = []
-    for i, d in enumerate(datas):
-        q = 0
-        if i == 0:
-            q |= QUAL_START
-        if i == len(datas) - 1:
-            q |= QUAL_END
-        out.append((q, d))
-    return out
+    return _chunked(b'', text, word)
 
 
 _STREAM_TURN = [0]
